@@ -2,7 +2,7 @@
 //! and the public hiding generators of the committer key; blinding fields of proofs.
 use ark_ec::{pairing::Pairing, AffineRepr, CurveGroup};
 use ark_ff::{PrimeField, Zero};
-use ark_poly::{multivariate::{SparsePolynomial, SparseTerm, Term}, univariate::DensePolynomial, DenseMVPolynomial, Polynomial};
+use ark_poly::{multivariate::{SparsePolynomial, SparseTerm, Term}, univariate::DensePolynomial, Polynomial};
 use ark_poly_commit::{ipa_pc, kzg10, marlin_pc, marlin_pst13_pc, sonic_pc, LabeledPolynomial};
 use std::ops::Mul;
 
